@@ -228,6 +228,10 @@ func dumpFull(c *srv.Conn) string {
 		}
 	}
 	c.MustDo("OUTPUT", "resp")
+	if strings.Contains(d, "null") {
+		// JSON shows NaN, +Inf and -Inf alike (null): add what RESP shows of such objects
+		return d + sb.String() + nonFiniteDetail(c)
+	}
 	return d + sb.String()
 }
 
@@ -329,6 +333,24 @@ func genObject(rng *rand.Rand) []string {
 	f := func(lo, hi float64) string {
 		return strconv.FormatFloat(lo+rng.Float64()*(hi-lo), 'f', rng.Intn(7), 64)
 	}
+	if rng.Intn(40) == 0 {
+		// coordinates that are not finite: accepted by SET, not expressible in JSON
+		nf := []string{"nan", "inf", "-inf", "NaN", "+Inf", "Infinity"}
+		switch rng.Intn(4) {
+		case 0:
+			return []string{"POINT", nf[rng.Intn(len(nf))], f(-175, 175)}
+		case 1:
+			return []string{"POINT", f(-85, 85), nf[rng.Intn(len(nf))]}
+		case 2:
+			return []string{"POINT", f(-85, 85), f(-175, 175), nf[rng.Intn(len(nf))]}
+		}
+		b := []string{"BOUNDS", "-10", "-20", "10", "20"}
+		b[1+rng.Intn(4)] = nf[rng.Intn(len(nf))]
+		if rng.Intn(3) == 0 {
+			b = []string{"BOUNDS", "-inf", "-inf", "inf", "inf"}
+		}
+		return b
+	}
 	switch rng.Intn(11) {
 	case 0, 1:
 		return []string{"POINT", f(-85, 85), f(-175, 175)}
@@ -373,6 +395,10 @@ func genSet(rng *rand.Rand, key, id string, allowNonUTF8 bool) []string {
 			v = nonUTF8FieldValues[rng.Intn(len(nonUTF8FieldValues))]
 		}
 		args = append(args, "FIELD", fieldNames[rng.Intn(len(fieldNames))], v)
+	}
+	if rng.Intn(30) == 0 {
+		// a name with surrounding white space: stored trimmed; a reserved name must not get through
+		args = append(args, "FIELD", []string{" z", "lat ", "\tlon", " speed ", " Z", "  b\n", " z", "heading\r\n"}[rng.Intn(8)], "7")
 	}
 	if rng.Intn(4) == 0 {
 		args = append(args, "EX", []string{"1000", "500.75", "86400", "3600.05"}[rng.Intn(4)])
@@ -897,6 +923,8 @@ func playSchedule(r *hx.Result, cfg hx.Config, drv *model.Driver, sc schedule, i
 			impl = "err:idnotfound"
 		case v.IsErr() && strings.Contains(v.Str, "cannot share the same name"):
 			impl = "fatal"
+		case v.IsErr() && strings.Contains(v.Str, "invalid argument"):
+			impl = "err:invalid"
 		case v.IsErr():
 			impl = "err:" + v.Str
 		case v.Kind == ':' && v.Int == 0:
@@ -1265,7 +1293,7 @@ func witnessSchedules() []schedule {
 		0: {{op: "drop", a: "y"}, {op: "fset", a: "z", b: "i2", fs: []fu{{"b", fvp(1)}}}, {op: "del", a: "z", b: "i2"}},
 		1: {{op: "fset", a: "a", b: "i1", fs: []fu{{"b", fvp(1)}}}},
 	}
-	out = append(out, w, h, ks, gone)
+	out = append(out, w, h, ks, gone, paddedNamesSchedule())
 	// an interrupted rewrite leaves files behind; the dataset shrinks; the next rewrite completes
 	for _, cp := range []string{"after-sync", "after-rename-bak", "before-append"} {
 		var e schedule
@@ -1697,7 +1725,7 @@ func runC09(r *hx.Result, cfg hx.Config) {
 	tooMany := func() bool {
 		n := 0
 		for k, v := range r.Distribution {
-			if strings.HasPrefix(k, "fail:") && !strings.Contains(k, "shrink-rename-") && !strings.Contains(k, "-replayed-twice") {
+			if strings.HasPrefix(k, "fail:") && !strings.Contains(k, "shrink-rename-") && !strings.Contains(k, "-replayed-twice") && !strings.Contains(k, "shrink-object-overflow-") {
 				n += v
 			}
 		}
@@ -1728,12 +1756,37 @@ func runC09(r *hx.Result, cfg hx.Config) {
 		idx++
 		guard(bc.name, func() { bufferedAtSwap(r, cfg, drv, bc, idx) })
 	}
+	// what a restart makes of the rewritten log: padded reserved field names, coordinates that are
+	// not finite (model: ShrinkLoad.enc / dec), overflowing literals in other geometries (open finding)
+	guard("padded-names", func() { paddedNamesWitness(r, cfg) })
+	var nfPoints, nfRects []nfObject
+	for _, o := range nonFiniteObjects() {
+		if o.set[0] == "BOUNDS" {
+			nfRects = append(nfRects, o)
+		} else {
+			nfPoints = append(nfPoints, o)
+		}
+	}
+	guard("non-finite points", func() { nonFiniteWitness(r, cfg, drv, "nfp", nfPoints, false) })
+	guard("non-finite rectangles", func() { nonFiniteWitness(r, cfg, drv, "nfr", nfRects, false) })
+	guard("overflow", func() { nonFiniteWitness(r, cfg, drv, "nfo", overflowObjects(), true) })
 	guard("jset-append", func() { jsonWitness(r, cfg, "jset-append") })
 	guard("jdel-index", func() { jsonWitness(r, cfg, "jdel-index") })
 	guard("rename-hook", func() { renameHookWitness(r, cfg) })
 	// 2. crash points
 	cps := strings.Split(drv.Ask("cpoints"), ",")
 	crashPoints = cps
+	// 2b. the same with a legacy "aof" file in the directory (model: ShrinkLoad.startup): always the
+	// crash between the two renames, and one or more other points
+	lcps := []string{"after-rename-bak", cps[rng.Intn(len(cps))]}
+	if cfg.Tier == "thorough" || cfg.Search {
+		lcps = append([]string{"after-rename-bak"}, cps...)
+	}
+	for _, cp := range lcps {
+		cp := cp
+		idx++
+		guard("legacy crash "+cp, func() { legacyCrash(r, cfg, drv, cp, idx) })
+	}
 	for round := 0; round < ncrashRounds; round++ {
 		for j, cp := range append(cps, "kill-mid-scan") {
 			cp := cp
